@@ -2,6 +2,7 @@ import BytesVerif.Judge.C14
 import BytesVerif.Judge.C15
 import BytesVerif.Judge.Buf
 import BytesVerif.Judge.Mut
+import BytesVerif.Judge.Seq
 
 def main (args : List String) : IO UInt32 := do
   match args with
@@ -12,6 +13,7 @@ def main (args : List String) : IO UInt32 := do
   | ["buf"] => BytesVerif.Judge.BufJ.run false
   | ["buf", "debug"] => BytesVerif.Judge.BufJ.run false
   | ["buf", "release"] => BytesVerif.Judge.BufJ.run true
+  | ["seq"] => BytesVerif.Judge.SeqJ.run
   | ["mut"] => BytesVerif.Judge.MutJ.run
   | ["cert-c11"] => BytesVerif.Judge.MutJ.certSearch
   | ["cert-c10"] => BytesVerif.Judge.BufJ.certSearch
